@@ -137,6 +137,18 @@ def closure_program(s, g, rng, tier):
         b[0] = (b[0] & 0x1f) | (rng.choice([0x80, 0xa0, 0x80, 0xc0]) if comp else rng.choice([0, 0, 0x40]))
         dd = s.op(gp + (".dec_c" if comp else ".dec_u"), V.b(bytes(b)))
         test_aff(dd)
+    # deserialisers on hostile streams (every type, both flags): whatever they accept must be a member
+    for tag, Pc in rng.sample(cands, 6):
+        for cflag in (True, False):
+            b = bytearray(c04.raw_encode(g, Pc, cflag))
+            if rng.random() < 0.2:
+                b[0] ^= 0x20
+            for ty in ("g%d" % g, "g%da" % g):
+                dd = s.op("deser", V.s(ty), V.b(bytes(b) + bytes(8)), V.t(cflag), V.n(rng.choice([0, 1])), V.n(-1))
+                if ty.endswith("a"):
+                    test_aff(dd)
+                else:
+                    test(dd)
     for x in regs:
         test(x)
     steps = rng.randrange(10, 61) if tier != "quick" else rng.randrange(10, 30)
